@@ -136,7 +136,8 @@ def run(tier):
             i = r_.randrange(12, len(m))
             m[i] = r_.randint(0, 255)
         muts.append(bytes(m))
-    items = [{"bytes": b.hex()} for b in corpus + muts]
+    # and hostile constructions: whatever of them the real decoder accepts must survive re-encoding
+    items = [{"bytes": b.hex()} for b in corpus + muts + list(wc.adversarial(deep_for_tlc=False))]
     obs, crashes = wc.run_harness_lines("wire-decode", os.path.join(wd, "re.in"), os.path.join(wd, "re.out"), items)
     good = [o for o in obs if o.get("ev") == "decode"]
     v.traces += wc.validate(v, PID, wd, "re", good)
